@@ -100,7 +100,7 @@ def random_cases(ctx, count):
             out[-1]["inp"]["ft"] = r.choice(["f32", "f64"])
             lst = [0, 2000, 2048, 8192, 65536] if out[-1]["inp"]["ft"] == "f32" else [0, 10 ** 5, 10 ** 7, 2 ** 30]
             out[-1]["inp"]["off"] = [r.choice(lst) for _ in range(p)]
-        if not (kind == "ols" or ln == 0 or rn == 0):
+        if kind == "enet" or not (kind == "ols" or ln == 0 or rn == 0):      # single task: loose fit also without an l1 part
             out[-1]["inp"]["lte"] = r.randint(1, 4)
             out[-1]["inp"]["ue"] = r.choice([0, -10, -14, 10])
     return out
